@@ -620,6 +620,133 @@ Proof.
     rewrite map_length, Hlen in Hn. exact Hn.
 Qed.
 
+(* ------------------------------------------------------------------ *)
+(* D4 over the whole pass: every edge row ends up holding a one-sided consistency of the
+   ORIGINAL table (the windows of later steps read rise/decay/period, which never change),
+   or NaN when the edge is the first or last row of the table.                              *)
+
+Lemma map_upd {A B} (f : A -> B) (l : list A) i r x : nth_error l i = Some r -> f x = f r ->
+  map f (firstn i l ++ x :: skipn (S i) l) = map f l.
+Proof.
+  revert i. induction l as [|a l IH]; intros i Hr Hf; [destruct i; discriminate Hr|].
+  destruct i as [|i].
+  - cbn in Hr. injection Hr as ->. cbn [firstn skipn app map]. rewrite Hf. reflexivity.
+  - cbn [nth_error] in Hr. cbn [firstn app map]. change (skipn (S (S i)) (a :: l)) with (skipn (S i) l).
+    rewrite (IH i Hr Hf). reflexivity.
+Qed.
+
+Definition same_cols (t rows : list row) : Prop :=
+  map e_rise t = map e_rise rows /\ map e_decay t = map e_decay rows /\
+  map e_period t = map e_period rows.
+
+Lemma recompute_edge_cols peak (t t1 rows : list row) i d :
+  recompute_edge peak t i d = Ok t1 -> same_cols t rows -> same_cols t1 rows.
+Proof.
+  intros H (C1 & C2 & C3).
+  apply recompute_edge_inv in H as (ac & pc & a & p & r & _ & _ & _ & _ & Er & ->).
+  unfold same_cols. rewrite !(map_upd _ _ _ _ _ Er) by reflexivity. repeat split; assumption.
+Qed.
+
+Definition one_sided (peak : bool) (rows : list row) (j : nat) (r' : row) : Prop :=
+  exists d, (d = Next \/ d = Last) /\
+    f_ac (e_feat r') = clamp0 (amp_cons_at peak d (map e_rise rows) (map e_decay rows) j) /\
+    f_pc (e_feat r') = period_cons_at d (map e_period rows) j.
+
+Definition edge_valued (peak : bool) (rows t : list row) (j : nat) : Prop :=
+  exists r', nth_error t j = Some r' /\
+    ((1 <= j /\ j + 1 < length rows /\ one_sided peak rows j r') \/
+     ((j = 0 \/ j + 1 = length rows) /\
+      isnan (f_ac (e_feat r')) = true /\ isnan (f_pc (e_feat r')) = true)).
+
+Lemma recompute_edge_valued peak (rows t t1 : list row) i d :
+  recompute_edge peak t i d = Ok t1 -> d = Next \/ d = Last -> same_cols t rows ->
+  length t = length rows -> 2 <= length rows -> edge_valued peak rows t1 i.
+Proof.
+  intros H Hd (C1 & C2 & C3) L L2.
+  assert (Hi : i < length t).
+  { apply recompute_edge_inv in H as (ac & pc & a & p & r & _ & _ & _ & _ & Er & _).
+    apply nth_error_Some. congruence. }
+  destruct (Nat.eq_dec i 0) as [E0|N0].
+  { destruct (recompute_edge_value_nan _ _ _ _ _ H (or_introl E0) ltac:(lia)) as (r' & Hr' & N1 & N2).
+    exists r'. split; [exact Hr'|]. right. split; [left; exact E0|]. split; assumption. }
+  destruct (Nat.eq_dec (i + 1) (length t)) as [El|Nl].
+  { destruct (recompute_edge_value_nan _ _ _ _ _ H (or_intror El) ltac:(lia)) as (r' & Hr' & N1 & N2).
+    exists r'. split; [exact Hr'|]. right. split; [right; lia|]. split; assumption. }
+  destruct (recompute_edge_value _ _ _ _ _ H ltac:(lia) ltac:(lia)) as (r' & Hr' & V1 & V2).
+  exists r'. split; [exact Hr'|]. left. split; [lia|]. split; [lia|].
+  exists d. split; [exact Hd|]. rewrite <- C1, <- C2, <- C3. split; assumption.
+Qed.
+
+Lemma fold_edge_step_valued peak (rows : list row) ps : forall (t out : list row),
+  fold_left (edge_step peak) ps (Ok t) = Ok out ->
+  same_cols t rows -> length t = length rows -> 2 <= length rows ->
+  forall j, edge_valued peak rows t j \/ (exists s e, In (s, e) ps /\ (j = s \/ j = e)) ->
+    edge_valued peak rows out j.
+Proof.
+  induction ps as [|[s e] ps IH]; intros t out H C L L2 j Hj.
+  - cbn [fold_left] in H. injection H as <-. destruct Hj as [Hj|(s & e & [] & _)]. exact Hj.
+  - cbn [fold_left] in H. unfold edge_step at 2 in H. cbn [bind fst snd] in H.
+    destruct (recompute_edge peak t s Next) as [t1|e1] eqn:E1; cbn [bind] in H;
+      [|rewrite fold_edge_step_err in H; discriminate].
+    destruct (recompute_edge peak t1 e Last) as [t2|e2] eqn:E2;
+      [|rewrite fold_edge_step_err in H; discriminate].
+    pose proof (recompute_edge_cols _ _ _ _ _ _ E1 C) as C1.
+    pose proof (recompute_edge_cols _ _ _ _ _ _ E2 C1) as C2.
+    destruct (recompute_edge_frame _ _ _ _ _ E1) as (L1 & F1 & _).
+    destruct (recompute_edge_frame _ _ _ _ _ E2) as (L2' & F2 & _).
+    apply (IH t2 out H C2 ltac:(congruence) L2 j).
+    destruct (Nat.eq_dec j e) as [->|Ne].
+    { left. apply (recompute_edge_valued _ _ _ _ _ _ E2); auto. congruence. }
+    destruct (Nat.eq_dec j s) as [->|Ns].
+    { left. destruct (recompute_edge_valued _ _ _ _ _ _ E1 (or_introl eq_refl) C L L2) as (r' & Hr' & V).
+      exists r'. split; [|exact V]. rewrite F2 by exact Ne. exact Hr'. }
+    destruct Hj as [(r' & Hr' & V)|(s' & e' & [Heq|Hin] & Hor)].
+    + left. exists r'. split; [|exact V]. rewrite F2, F1 by assumption. exact Hr'.
+    + injection Heq as <- <-. destruct Hor; contradiction.
+    + right. exists s', e'. split; assumption.
+Qed.
+
+Lemma edge_pairs_In tr s e : In (s, e) (edge_pairs tr) -> In s tr /\ exists e', e = S e' /\ In e' tr.
+Proof.
+  assert (G : forall tr : list nat,
+    (forall s e, In (s, e) (edge_pairs tr) -> In s tr /\ exists e', e = S e' /\ In e' tr) /\
+    (forall a s e, In (s, e) (edge_pairs (a :: tr)) ->
+       In s (a :: tr) /\ exists e', e = S e' /\ In e' (a :: tr))).
+  { clear. induction tr as [|b tr [IH1 IH2]].
+    - split; [intros s e []|intros a s e []].
+    - split; [exact (IH2 b)|]. intros a s e Hin.
+      cbn [edge_pairs In] in Hin. destruct Hin as [Heq|Hin].
+      + injection Heq as <- <-. split; [left; reflexivity|].
+        exists b. split; [reflexivity|right; left; reflexivity].
+      + destruct (IH1 s e Hin) as (Hs & e' & -> & He').
+        split; [right; right; exact Hs|]. exists e'. split; [reflexivity|right; right; exact He']. }
+  apply G.
+Qed.
+
+Lemma is_edge_bounds lab j : is_edge lab j -> j < length lab /\ 2 <= length lab.
+Proof.
+  intros (s & e & Hin & Hj). apply edge_pairs_In in Hin as (Hs & e' & -> & He').
+  apply transitions_In in Hs as (_ & Hs & _). apply transitions_In in He' as (_ & He' & _).
+  rewrite Nat.sub_0_r in *. destruct Hj as [->| ->]; lia.
+Qed.
+
+Theorem recompute_all_edge_value peak (rows out : list row) j :
+  recompute_all peak rows = Ok out -> is_edge (map e_lab rows) j ->
+  exists r', nth_error out j = Some r' /\
+    ((1 <= j /\ j + 1 < length rows /\
+      exists d, (d = Next \/ d = Last) /\
+        f_ac (e_feat r') = clamp0 (amp_cons_at peak d (map e_rise rows) (map e_decay rows) j) /\
+        f_pc (e_feat r') = period_cons_at d (map e_period rows) j) \/
+     ((j = 0 \/ j + 1 = length rows) /\
+      isnan (f_ac (e_feat r')) = true /\ isnan (f_pc (e_feat r')) = true)).
+Proof.
+  rewrite recompute_all_fold. intros H He.
+  destruct (is_edge_bounds _ _ He) as (_ & L2). rewrite map_length in L2.
+  apply (fold_edge_step_valued peak rows _ rows out H); try exact L2; try reflexivity.
+  - unfold same_cols. repeat split.
+  - right. exact He.
+Qed.
+
 End EdgeProofs.
 
 (* ------------------------------------------------------------------ *)
